@@ -33,7 +33,7 @@ EmptyRun ==
   [id |-> 0, scenario |-> "", items |-> <<>>, cur |-> 0, pat |-> 0, started |-> {}, finished |-> {},
    handles |-> {}, dropping |-> {}, lastDump |-> EmptyDump, preRestart |-> EmptyDump, restartSeq |-> 0, restartClear |-> FALSE,
    updatedSince |-> TRUE, tick |-> [seq |-> 0, pat |-> 0, stream |-> 0, before |-> EmptyDump], lastTick |-> [seq |-> 0, rseq |-> 0, running |-> FALSE, changed |-> FALSE],
-   pendingClear |-> FALSE, cloneStream |-> 0, obsSeq |-> 0, gone |-> {}, updSinceDump |-> FALSE, snLoads |-> {}, snArms |-> {}, tryFails |-> {}, runEnds |-> {}, lastSite |-> <<>>, notifies |-> {}, stores |-> {}, baseStream |-> <<>>, dropsSeen |-> {}, nucleoDropping |-> FALSE, aborted |-> FALSE, quiescent |-> FALSE]
+   pendingClear |-> FALSE, cloneStream |-> 0, obsSeq |-> <<>>, gone |-> {}, updSinceDump |-> FALSE, snLoads |-> {}, snArms |-> {}, tryFails |-> {}, runEnds |-> {}, lastSite |-> <<>>, notifies |-> {}, stores |-> {}, baseStream |-> <<>>, dropsSeen |-> {}, nucleoDropping |-> FALSE, aborted |-> FALSE, quiescent |-> FALSE]
 
 SeqToSet(q) == {q[k] : k \in 1..Len(q)}
 Bad(cond, clause) == IF cond THEN {} ELSE {clause}
@@ -114,11 +114,12 @@ StatusFails(run, d, s) ==   \* d = the dump right after the tick described by ru
         ELSE {})
 
 \* ---- C20 ------------------------------------------------------------------------------------------------
-\* n was read by the observing call at some moment between its invocation (run.obsSeq) and now: handles whose drop
-\* overlaps that window may or may not have been counted
-ActiveFails(run, n) ==
-  LET sure == {h \in run.handles : h[2] = run.cur /\ h[1] \notin run.dropping}
-      maybe == {h \in run.handles : h[2] = run.cur} \cup {<<g[1], g[2]>> : g \in {x \in run.gone : x[2] = run.cur /\ x[3] > run.obsSeq}} IN
+\* n was read by the observing call of thread tid at some moment between its invocation (run.obsSeq[tid]) and now:
+\* handles whose drop overlaps that window may or may not have been counted
+ActiveFails(run, n, tid) ==
+  LET since == IF tid \in DOMAIN run.obsSeq THEN run.obsSeq[tid] ELSE 0
+      sure == {h \in run.handles : h[2] = run.cur /\ h[1] \notin run.dropping}
+      maybe == {h \in run.handles : h[2] = run.cur} \cup {<<g[1], g[2]>> : g \in {x \in run.gone : x[2] = run.cur /\ x[3] > since}} IN
   IF n < 0 THEN {} ELSE Bad(Cardinality(sure) <= n /\ n <= Cardinality(maybe), "active_injectors_wrong")
 
 \* ---- C13 ------------------------------------------------------------------------------------------------
@@ -205,14 +206,14 @@ Step ==
                                                              vals |-> IF e.api = "extend" THEN e.vals ELSE <<>>]}]
               ELSE IF e.api = "tick" THEN
                   nrun' = [nrun EXCEPT !.tick = [seq |-> e.seq, pat |-> e.pat, stream |-> e.stream, before |-> nrun.lastDump], !.quiescent = FALSE]
-              ELSE IF e.api = "drop_injector" THEN nrun' = [nrun EXCEPT !.dropping = @ \cup {e.h}, !.obsSeq = e.seq]
-              ELSE IF e.api \in {"dump", "injector"} THEN nrun' = [nrun EXCEPT !.obsSeq = e.seq]
+              ELSE IF e.api = "drop_injector" THEN nrun' = [nrun EXCEPT !.dropping = @ \cup {e.h}, !.obsSeq = (e.tid :> e.seq) @@ @]
+              ELSE IF e.api \in {"dump", "injector"} THEN nrun' = [nrun EXCEPT !.obsSeq = (e.tid :> e.seq) @@ @]
               ELSE IF e.api = "drop_nucleo" THEN nrun' = [nrun EXCEPT !.nucleoDropping = TRUE]
               ELSE IF e.api = "reparse" THEN nrun' = [nrun EXCEPT !.pat = e.pat, !.quiescent = FALSE]
               ELSE IF e.api = "restart" THEN
                   nrun' = [nrun EXCEPT !.preRestart = nrun.lastDump, !.quiescent = FALSE, !.pendingClear = e.clear,
                                        !.updSinceDump = @ \/ e.clear]
-              ELSE IF e.api = "clone_injector" THEN nrun' = [nrun EXCEPT !.cloneStream = e.stream, !.obsSeq = e.seq]
+              ELSE IF e.api = "clone_injector" THEN nrun' = [nrun EXCEPT !.cloneStream = e.stream, !.obsSeq = (e.tid :> e.seq) @@ @]
               ELSE nrun' = nrun)
              /\ nstat' = [nstat EXCEPT !.events = @ + 1]
         ELSE IF e.site = "ret" THEN
@@ -233,14 +234,14 @@ Step ==
               ELSE IF e.api \in {"injector", "clone_injector"} THEN
                   LET h == <<e.h, IF e.api = "injector" THEN nrun.cur ELSE nrun.cloneStream>>
                       run2 == [nrun EXCEPT !.handles = @ \cup {h}]
-                      F == ActiveFails(run2, e.active) IN
+                      F == ActiveFails(run2, e.active, e.tid) IN
                   /\ Report(nrun, F, e)
                   /\ nrun' = run2
                   /\ nstat' = [nstat EXCEPT !.events = @ + 1, !.fails = @ + Cardinality(F)]
               ELSE IF e.api = "drop_injector" THEN
                   LET run2 == [nrun EXCEPT !.handles = {h \in @ : h[1] # e.h}, !.dropping = @ \ {e.h},
                                            !.gone = @ \cup {<<h[1], h[2], e.seq>> : h \in {x \in nrun.handles : x[1] = e.h}}]
-                      F == ActiveFails(run2, e.active) IN
+                      F == ActiveFails(run2, e.active, e.tid) IN
                   /\ Report(nrun, F, e)
                   /\ nrun' = run2
                   /\ nstat' = [nstat EXCEPT !.events = @ + 1, !.fails = @ + Cardinality(F)]
@@ -250,7 +251,7 @@ Step ==
                       F == (IF nrun.aborted THEN {} ELSE
                               SnapshotFails(nrun, d, e.seq)
                               \cup RestartFails(nrun, d, e.seq)
-                              \cup ActiveFails(nrun, e.active)
+                              \cup ActiveFails(nrun, e.active, e.tid)
                               \cup (IF afterTick THEN StatusFails(nrun, d, e.seq) ELSE {})
                               \cup (IF nrun.quiescent /\ ~nrun.lastTick.running THEN FromScratchFails(nrun, d, e.seq) ELSE {})) IN
                   /\ Report(nrun, F, e)
